@@ -219,7 +219,7 @@ pub fn add_property_defaults(g: &mut G, doc: &mut Value) {
             let required: Vec<String> = o.get("required").and_then(|r| r.as_array()).map(|a| a.iter().filter_map(|x| x.as_str().map(|s| s.to_string())).collect()).unwrap_or_default();
             if let Some(ps) = o.get_mut("properties").and_then(|p| p.as_object_mut()) {
                 for (pn, ps) in ps.iter_mut() {
-                    if required.contains(pn) || !g.chance(1, 3) {
+                    if required.contains(pn) || !g.chance(1, 2) {
                         continue;
                     }
                     let Some(po) = ps.as_object() else { continue };
